@@ -177,6 +177,47 @@ func genHeapOps(r *vrand, n int, invalidOK bool) []string {
 	return ops
 }
 
+// genHeapOpsBig: queues that actually grow (8-24 elements first), removals biased to the last
+// slots of the array (where a removal needs a sift-up as well as a sift-down), wider priorities.
+func genHeapOpsBig(r *vrand, n int) []string {
+	var ops []string
+	size := 0
+	for k := 0; k < 8+r.intn(17); k++ {
+		ops = append(ops, fmt.Sprintf("P%d", r.intn(40)))
+		size++
+	}
+	for len(ops) < n {
+		c := r.intn(20)
+		switch {
+		case c < 7 || size < 3:
+			ops = append(ops, fmt.Sprintf("P%d", r.intn(40)))
+			size++
+		case c < 10:
+			ops = append(ops, "O")
+			size--
+		case c < 16:
+			i := r.intn(size)
+			if r.chance(1, 2) {
+				i = size - 1 - r.intn(3)
+			}
+			ops = append(ops, fmt.Sprintf("R%d", i))
+			size--
+		default:
+			ops = append(ops, fmt.Sprintf("F%d:%d", r.intn(size), r.intn(40)))
+		}
+	}
+	// drain: every remaining element must come out in order (a broken heap order that the ops so
+	// far did not expose shows here), directly or after a few more pushes
+	for k := 0; k < r.intn(4); k++ {
+		ops = append(ops, fmt.Sprintf("P%d", r.intn(40)))
+		size++
+	}
+	for ; size > 0; size-- {
+		ops = append(ops, "O")
+	}
+	return ops
+}
+
 func TestVerifC20(t *testing.T) {
 	o := newVout()
 	defer o.close()
@@ -238,6 +279,9 @@ func TestVerifC20(t *testing.T) {
 	}
 	for i := 0; i < cases; i++ {
 		emit(fmt.Sprintf("hr%d", i), genHeapOps(r.fork(uint64(i)), 5+r.intn(length), true))
+	}
+	for i := 0; i < cases; i++ {
+		emit(fmt.Sprintf("hb%d", i), genHeapOpsBig(r.fork(uint64(700000+i)), 30+r.intn(length)))
 	}
 	o.stat("C20", map[string]interface{}{"heap_cases": n, "heap_distinct": len(distinct), "exhaustive_len": L, "exhaustive_cases": cnt})
 }
